@@ -100,7 +100,11 @@ fn build_case(
             tags[src.below(tags.len())].clone()
         };
         let base = numeric_base(&t);
-        match src.below(5) {
+        match src.below(6) {
+            5 => {
+                let occ = tags.iter().filter(|x| **x == t).count().max(1);
+                ops.push(TrackerOp::Mark(t, src.below(occ)))
+            }
             0 => ops.push(TrackerOp::Peek(t)),
             1 | 2 => ops.push(TrackerOp::Take(t)),
             3 => ops.push(TrackerOp::Find(base, None)),
@@ -305,6 +309,19 @@ pub fn oracle(c: &TokCase, obs: &mut Obs) -> Vec<Violation> {
                                 consumed.entry(tag.clone()).or_default().push(*p);
                             }
                         }
+                        TrackerOp::Mark(tag, k) => {
+                            let exp = map.get(tag).and_then(|vs| {
+                                let mut ps: Vec<(String, usize)> = vs.clone();
+                                ps.sort_by_key(|x| x.1);
+                                ps.get(*k).cloned()
+                            });
+                            if let Some((_, p)) = exp {
+                                let e = consumed.entry(tag.clone()).or_default();
+                                if !e.contains(&p) {
+                                    e.push(p);
+                                }
+                            }
+                        }
                         TrackerOp::Find(base, cons) => {
                             // eligible keys: exact `base`, or base + one letter allowed by the constraint
                             let eligible = |k: &String| -> bool {
@@ -474,7 +491,7 @@ pub fn oracle(c: &TokCase, obs: &mut Obs) -> Vec<Violation> {
 }
 
 pub fn run(ctx: &Ctx) {
-    ctx.add_rule("bulk texts (token lists of several generated messages concatenated and cut at 130..4097 fields around every power of two; up to 65 536 in the thorough tier) with histories of up to 600 requests focused on one tag; and per message type: well-delimited block-4 texts (valid and structurally mutated: unknown tags, duplicates, reorderings; LF/CRLF; leading/trailing blank lines) as extract_block returns them, plus a history of up to 40 consumption requests (peek / take by tag, find by base tag with and without option constraints); oracle: reference tokenizer list == map flattened by position (tag or its numeric base, content up to surrounding white space, positions strictly increasing), a per-tag model of the tracker, and partition checks for split_into_sequences / parse_repetitive_sequence; non-trivial = a tag occurs twice, or a history mixing take and find; distinct by text/history");
+    ctx.add_rule("bulk texts (token lists of several generated messages concatenated and cut at 130..4097 fields around every power of two; up to 65 536 in the thorough tier) with histories of up to 600 requests focused on one tag; and per message type: well-delimited block-4 texts (valid and structurally mutated: unknown tags, duplicates, reorderings; LF/CRLF; leading/trailing blank lines) as extract_block returns them, plus a history of up to 40 consumption requests (peek / take by tag, find by base tag with and without option constraints, mark the k-th occurrence consumed out of order); oracle: reference tokenizer list == map flattened by position (tag or its numeric base, content up to surrounding white space, positions strictly increasing), a per-tag model of the tracker, and partition checks for split_into_sequences / parse_repetitive_sequence; non-trivial = a tag occurs twice, or a history mixing take and find; distinct by text/history");
     ctx.assume("the option letter may be removed only for field numbers outside the table normalize_field_tag documents (11 13 21 23 25 26 28 32 33 34 37 50-60 62 71 77 90)");
     ctx.assume("domain: content lines never start with ':' or '-' and nothing precedes the first field (the tokeniser's behaviour there is documented nowhere)");
     ctx.assume("find-by-base: the letterless tag is served before lettered ones (the function documents it); among lettered tags the earliest unconsumed eligible occurrence in input order is expected");
